@@ -121,6 +121,8 @@ type history struct {
 	Workers int
 	Drifted bool // mechanism A: left the implementation-level machine somewhere
 	Bad     bool // leaves the property level somewhere (set by validateProp)
+	EvSeen  int  // hash-only requests answered with a miss for a hash the cache had been shown to bind (evicted)
+	ReAdded int  // registrations of a hash that had been seen evicted
 	cc      *conc
 	Steps   []replayStep // in linearisation order, Got = observation
 }
@@ -151,8 +153,11 @@ func record(id string, ro rigOpts, method string, n, workers int, seed int64) (*
 	var evs []event
 	var firstErr error
 	var counter int64
-	one := func(c *conc, r *rand.Rand) {
+	one := func(c *conc, r *rand.Rand, fixed *AReq) {
 		req := genReq(r)
+		if fixed != nil {
+			req = *fixed
+		}
 		w := c.wire(req)
 		rp, o, err := rg.Do(w)
 		if err != nil {
@@ -185,7 +190,7 @@ func record(id string, ro rigOpts, method string, n, workers int, seed int64) (*
 	}
 	if workers <= 1 {
 		for i := 0; i < n; i++ {
-			one(cc, rnd)
+			one(cc, rnd, nil)
 			if firstErr != nil {
 				return nil, firstErr
 			}
@@ -200,7 +205,7 @@ func record(id string, ro rigOpts, method string, n, workers int, seed int64) (*
 			go func(c *conc, r *rand.Rand) {
 				defer wg.Done()
 				for i := 0; i < n/workers; i++ {
-					one(c, r)
+					one(c, r, nil)
 				}
 			}(&wc, wr)
 		}
@@ -219,9 +224,24 @@ func record(id string, ro rigOpts, method string, n, workers int, seed int64) (*
 			return a.ord < b.ord
 		})
 	}
+	// the sweep: one hash-only request per text, the only way to see through the
+	// public API what the cache holds at the end (sequential, after the clients)
+	nBefore := len(evs)
+	for _, t := range bTexts {
+		r := hashOnly("h:" + t)
+		one(cc, rnd, &r)
+		if firstErr != nil {
+			return nil, firstErr
+		}
+	}
+	if workers > 1 {
+		// (the sweep ran after all clients: it stays at the end, in order)
+		sort.SliceStable(evs[nBefore:], func(i, j int) bool { return evs[nBefore+i].ord < evs[nBefore+j].ord })
+	}
 	for _, e := range evs {
 		h.Steps = append(h.Steps, e.step)
 	}
+	h.EvSeen, h.ReAdded = int(rg.cache.evictionsSeen), int(rg.cache.reAdded)
 	return h, nil
 }
 
